@@ -838,6 +838,16 @@ def c28(scn, run):
             return f"group-start member {list(m)} had a live job ({before[m]['status']}) but was submitted again by the trigger"
         if subs_after.get(m, 0) > tries.get(m[1], 1):
             return f"member {list(m)} was submitted {subs_after[m]} times after one trigger"
+    ended = run["meta"].get("stop") in ("AUTOMATIC", "quiescent")
+    any_failed = any(e["e"] == "output" and ("failed" in e["out"] or "submit-failed" in e["out"]) for e in run["trace"])
+    if ended and not any_failed and not scn.get("queues"):
+        done_before = {tuple(t["id"]) for (n, evs) in ticks[:t_idx] for e in evs if e["e"] == "remove" and e["reason"] == "completed"
+                       for t in [e["t"]]}
+        for m in sorted(group):
+            live = m in before and before[m]["status"] in ("preparing", "submitted", "running")
+            if subs_after.get(m, 0) == 0 and not live:
+                return (f"member {list(m)} of the triggered group never ran after the trigger although every job of the run "
+                        f"succeeded (each member must run once more{'; it had finished before' if m in done_before else ''})")
     for kind, m, outs in order:
         if m in group:
             for ex in g[m]["prereqs"]:
